@@ -7,6 +7,11 @@ RULE = ("histories of register/unregister (stream and plain subscribers, unknown
         "(empty, repeated feeds, a stream name used as feed, names without the 'stream/' prefix, the reserved id), delete "
         "(known, unknown, deleteAll, twice), tagged broadcasts (mostly on a topic somebody listens to; sender name sometimes equal "
         "to a subscriber's) and table dumps, over <=3 streams, <=4 feeds, <=4 subscribers, lengths 3..35, all drawn from one PRNG; "
+        "in about half of the histories subscribers (stream and plain, registered or not) STALL: they stop draining their Send channel "
+        "with 0..3 free buffer slots left, so that forwarders block holding an undelivered message, and later drain again (or never); "
+        "stall scenarios: a stalled subscriber whose forwarders hold messages is unregistered / its rule replaced / deleted / "
+        "delete-all / registered next to, then a fresh subscriber joins, a rule is added, feeds are broadcast and the tables dumped "
+        "(the hub must answer every one of them; a hang is the observation `stuck` = oracle failure hub-hang); "
         "a malformed-line stream; the corpus (three historical crash sequences and variants; two re-registration cases run for "
         "correspondence only). Run against agg.Hub.Run, agg.Hub.RunWithStats (what vw starts) and, without the recover wrapper, "
         "as a process that may die. Discipline: the generator never registers a stream subscriber that is currently registered. "
@@ -17,22 +22,31 @@ ASSUMPTIONS = [
     "a *hub.Client is identified by its immutable (Name, Topic); Topic/Name are not mutated after registration",
     "usage discipline: a stream subscriber is not registered again while it is registered (every caller in /repo registers a "
     "fresh client once); without it forwarders leak for good (theorem Agg.reregister_orphans_forwarder, corpus case 6)",
-    "delivery is observed at quiescence (hub loops and all forwarders parked in select, read from a stop-the-world goroutine "
-    "dump): the inner hub's non-blocking send to a busy forwarder (drop under load) and subscribers with a full Send buffer "
-    "are outside the model",
+    "delivery is observed at quiescence (hub loops parked in select, every forwarder parked in select or blocked on a stalled "
+    "subscriber's full Send channel, read from a stop-the-world goroutine dump): the inner hub's non-blocking send to a forwarder "
+    "that is momentarily busy although its subscriber drains (drop under load) is outside the model",
+    "a stalled subscriber is one whose Send buffer the harness has filled up to k free slots and does not read; what it is owed "
+    "is observed when it drains again (unstall)",
+    "with leaked forwarders (usage discipline broken) AND a stalled subscriber with free slots, which forwarder gets a free slot is a "
+    "scheduler race: not generated",
     "Go map iteration order is unobservable (deliveries and tables are compared sorted)",
 ]
 
 P = "Relay.Props.C15"
+STALL_THEOREMS = ["stalls_never_crash_or_block_hub", "stalled_iff_history", "undelivered_were_owed", "drained_were_owed",
+                  "draining_subscriber_unaffected", "draining_stream_subscriber_follows_rule", "broadcast_rows", "fstepS_parked"]
 THEOREMS = [(f"Agg.{n}", P) for n in [
     "agg_never_panics", "stream_follows_latest_rule", "stream_forwarded_iff", "stream_delivery_follows_rule",
     "reregister_orphans_forwarder", "plain_delivery_exact", "plain_subscribers_unaffected",
     "removed_feed_stops", "deleted_rule_stops", "delete_all_stops", "unregistered_gets_nothing",
     "old_code_panics_delete_unregister", "old_code_panics_deleteAll_twice", "old_code_panics_delete_deleteAll",
-    "step_inv"]]
+    "step_inv"] + STALL_THEOREMS]
 
 STREAMS = ["stream/a", "stream/b", "stream/c"]
-ODD_STREAMS = ["stream/", "stream", "Stream/a", "deleteAll", "astream/a", ""]
+ODD_STREAMS = ["stream/", "stream", "Stream/a", "deleteAll", "astream/a", "",
+               # near-reserved / near-duplicate names (validate-vs-normalise): all ordinary, distinct names on the unchanged tree
+               "/deleteAll", " deleteAll", "deleteAll ", "\tdeleteAll", "deleteAll\n", "DeleteAll", "deleteall", "stream/deleteAll",
+               " stream/a", "stream/a ", "/stream/a", "stream/a/", "STREAM/A", "stream/\u00e9", "stream/" + "x" * 300]
 FEEDS = ["f1", "f2", "audio", "video"]
 NAMES = ["u1", "u2", "u3", "u4"]
 SENDERS = ["x", "u1", "u2", "cam"]
@@ -46,77 +60,212 @@ def line(*fs):
     return " ".join([fs[0]] + [hx(f) for f in fs[1:]])
 
 
-def gen_case(rng, L):
-    streams = rng.sample(STREAMS, rng.choice([1, 2, 3]))
-    if rng.random() < 0.15:
-        streams[-1] = rng.choice(ODD_STREAMS)
-    feeds = list(FEEDS)
-    if rng.random() < 0.2:
-        feeds[rng.randrange(4)] = rng.choice(streams + ["", "stream/zz"])
-    subs = []
-    for i in range(4):
-        nm = rng.choice(NAMES) if rng.random() < 0.3 else NAMES[i]
-        tp = rng.choice(streams) if rng.random() < 0.65 else rng.choice(feeds)
-        if (nm, tp) not in subs:
-            subs.append((nm, tp))
-    regd = set()
-    rules = {}
-    case = []
+def sline(u, k):
+    return f"stall {hx(u[0])} {hx(u[1])} {k}"
 
-    def add(st, fl):
+
+class Hist:
+    """one history under construction: keeps what the generator needs to aim its ops (who is registered, the rules, who is stalled)"""
+
+    def __init__(self, rng, stalls):
+        self.rng = rng
+        self.stalls = stalls
+        self.streams = rng.sample(STREAMS, rng.choice([1, 2, 3]))
+        if rng.random() < 0.15:
+            self.streams[-1] = rng.choice(ODD_STREAMS)
+        self.feeds = list(FEEDS)
+        if rng.random() < 0.2:
+            self.feeds[rng.randrange(4)] = rng.choice(self.streams + ["", "stream/zz"])
+        self.subs = []
+        for i in range(4):
+            nm = rng.choice(NAMES) if rng.random() < 0.3 else NAMES[i]
+            tp = rng.choice(self.streams) if rng.random() < 0.65 else rng.choice(self.feeds)
+            if (nm, tp) not in self.subs:
+                self.subs.append((nm, tp))
+        self.regd = set()
+        self.rules = {}
+        self.stalled = set()
+        self.case = []
+
+    def add(self, st, fl):
         if st != "deleteAll":
-            rules[st] = fl
-        case.append(line("add", st, *fl))
+            self.rules[st] = fl
+        self.case.append(line("add", st, *fl))
 
-    # mostly start with something to look at
-    if rng.random() < 0.7:
-        add(rng.choice(streams), [rng.choice(feeds) for _ in range(rng.choice([1, 2, 2, 3]))])
-    while len(case) < L:
+    def delete(self, s):
+        if s == "deleteAll":
+            self.rules.clear()
+        else:
+            self.rules.pop(s, None)
+        self.case.append(line("del", s))
+
+    def reg(self, u):
+        """False (and nothing emitted) when it would break the discipline: no re-registration of a registered stream subscriber"""
+        if is_stream(u[1]) and u in self.regd:
+            return False
+        self.regd.add(u)
+        self.case.append(line("reg", *u))
+        return True
+
+    def unreg(self, u):
+        self.regd.discard(u)
+        self.case.append(line("unreg", *u))
+
+    def stall(self, u, k):
+        self.stalled.add(u)
+        self.case.append(sline(u, k))
+
+    def unstall(self, u):
+        self.stalled.discard(u)
+        self.case.append(line("unstall", *u))
+
+    def hot(self):
+        """topics somebody currently listens to (through a rule or directly)"""
+        return [f for u in sorted(self.regd) if is_stream(u[1]) for f in self.rules.get(u[1], [])] + \
+               [u[1] for u in sorted(self.regd) if not is_stream(u[1])]
+
+    def bc(self, t=None):
+        rng = self.rng
+        if t is None:
+            hot = self.hot()
+            q = rng.random()
+            t = rng.choice(hot) if hot and q < 0.6 else rng.choice(self.feeds) if q < 0.93 else rng.choice(self.streams)
+        self.case.append(line("bc", t, rng.choice(SENDERS)))
+
+    def rand_op(self):
+        rng = self.rng
+        if self.stalls and rng.random() < 0.13:
+            if self.stalled and rng.random() < 0.4:
+                u = rng.choice(sorted(self.stalled)) if rng.random() < 0.85 else rng.choice(self.subs)
+                self.unstall(u)
+            else:
+                live = sorted(self.regd)
+                u = rng.choice(live) if live and rng.random() < 0.8 else rng.choice(self.subs)
+                self.stall(u, rng.choice([0, 0, 0, 1, 1, 2, 3]))
+            return
         r = rng.random()
         if r < 0.22:
-            cand = [u for u in subs if not (is_stream(u[1]) and u in regd)]  # discipline: no re-registration of a registered stream subscriber
-            if not cand:
-                continue
-            u = rng.choice(cand)
-            regd.add(u)
-            case.append(line("reg", *u))
+            cand = [u for u in self.subs if not (is_stream(u[1]) and u in self.regd)]
+            if cand:
+                self.reg(rng.choice(cand))
         elif r < 0.32:
-            u = rng.choice(subs)
-            regd.discard(u)
-            case.append(line("unreg", *u))
+            self.unreg(rng.choice(self.subs))
         elif r < 0.49:
-            st = rng.choice(streams) if rng.random() < 0.9 else rng.choice(ODD_STREAMS)
+            st = rng.choice(self.streams) if rng.random() < 0.9 else rng.choice(ODD_STREAMS)
             k = rng.choice([0, 1, 1, 2, 2, 3])
-            fl = [rng.choice(feeds) for _ in range(k)]
+            fl = [rng.choice(self.feeds) for _ in range(k)]
             if k >= 2 and rng.random() < 0.25:
                 fl[1] = fl[0]
-            add(st, fl)
+            self.add(st, fl)
         elif r < 0.59:
             q = rng.random()
-            st = "deleteAll" if q < 0.3 else rng.choice(streams) if q < 0.9 else rng.choice(ODD_STREAMS + ["stream/none"])
-            for s in ([st] + ([rng.choice([st, "deleteAll"])] if rng.random() < 0.15 else [])):
-                if s == "deleteAll":
-                    rules.clear()
-                else:
-                    rules.pop(s, None)
-                case.append(line("del", s))
+            st = "deleteAll" if q < 0.3 else rng.choice(self.streams) if q < 0.9 else rng.choice(ODD_STREAMS + ["stream/none"])
+            for x in ([st] + ([rng.choice([st, "deleteAll"])] if rng.random() < 0.15 else [])):
+                self.delete(x)
         else:
-            # mostly a topic somebody currently listens to (through a rule or directly), sometimes one nobody should get
-            hot = [f for u in regd if is_stream(u[1]) for f in rules.get(u[1], [])] + [u[1] for u in regd if not is_stream(u[1])]
-            q = rng.random()
-            t = rng.choice(hot) if hot and q < 0.6 else rng.choice(feeds) if q < 0.93 else rng.choice(streams)
-            case.append(line("bc", t, rng.choice(SENDERS)))
+            self.bc()
         if rng.random() < 0.07:
-            case.append("st")
-    case.append("st")
-    return case
+            self.case.append("st")
+
+
+def gen_case(rng, L, stalls=False):
+    h = Hist(rng, stalls)
+    # mostly start with something to look at
+    if rng.random() < 0.7:
+        h.add(rng.choice(h.streams), [rng.choice(h.feeds) for _ in range(rng.choice([1, 2, 2, 3]))])
+    while len(h.case) < L:
+        h.rand_op()
+    h.case.append("st")
+    return h.case
+
+
+def gen_stall_scenario(rng):
+    """a stalled subscriber whose forwarders hold undelivered messages meets every kind of tear-down; then the hub must go on
+    serving: a fresh subscriber, a new rule, broadcasts, a table dump (and the stalled one may drain again, or never)"""
+    h = Hist(rng, True)
+    st = h.streams[0] if is_stream(h.streams[0]) else "stream/a"
+    if st not in h.streams:
+        h.streams.append(st)
+    k = rng.choice([1, 1, 2, 2, 3])
+    fl = [rng.choice(h.feeds) for _ in range(k)]
+    if k >= 2 and rng.random() < 0.3:
+        fl[1] = fl[0]
+    victim = (rng.choice(NAMES), st)
+    others = [u for u in [(rng.choice(NAMES), st), (rng.choice(NAMES), rng.choice(fl)), (rng.choice(NAMES), rng.choice(h.feeds))]
+              if u != victim]
+    for u in [victim] + others:
+        if u not in h.subs:
+            h.subs.append(u)
+    room = rng.choice([0, 0, 0, 0, 1, 1, 2])
+    early = rng.random() < 0.3
+    if early:
+        h.stall(victim, room)            # not reading from the very start
+    if rng.random() < 0.8:
+        h.add(st, fl)
+        h.reg(victim)
+    else:
+        h.reg(victim)                   # subscriber first, rule second
+        h.add(st, fl)
+    for u in others:
+        if rng.random() < 0.6:
+            h.reg(u)
+    if not early:
+        h.stall(victim, room)
+    if others and rng.random() < 0.35:
+        h.stall(rng.choice(others), rng.choice([0, 0, 1, 2]))
+    # forwarders pick up messages they cannot deliver
+    for _ in range(rng.choice([1, 1, 2, 3, 4])):
+        h.bc(rng.choice(fl) if rng.random() < 0.9 else None)
+    # tear-down(s) while the messages are held
+    for _ in range(rng.choice([1, 1, 2, 3])):
+        q = rng.random()
+        if q < 0.34:
+            h.unreg(victim)
+        elif q < 0.52:
+            h.add(st, [rng.choice(h.feeds) for _ in range(rng.choice([0, 1, 2]))])
+        elif q < 0.66:
+            h.delete(st)
+        elif q < 0.80:
+            h.delete("deleteAll")
+        elif q < 0.90:
+            h.unreg(rng.choice(h.subs))
+        else:
+            h.reg(victim)                # allowed only when it has left
+        if rng.random() < 0.4:
+            h.bc(rng.choice(fl))
+    # the hub must still serve everybody else
+    fresh = (rng.choice(["w1", "w2"]), rng.choice([st] + h.streams))
+    if not is_stream(fresh[1]):
+        fresh = (fresh[0], st)
+    if fresh not in h.subs:
+        h.subs.append(fresh)
+    fl2 = [rng.choice(h.feeds) for _ in range(rng.choice([1, 2]))]
+    if rng.random() < 0.5:
+        h.reg(fresh); h.add(fresh[1], fl2)
+    else:
+        h.add(fresh[1], fl2); h.reg(fresh)
+    h.bc(fl2[0])
+    h.case.append("st")
+    if rng.random() < 0.6:
+        h.unstall(victim)
+        h.bc(rng.choice(fl2 + fl))
+    for _ in range(rng.choice([0, 0, 3, 8])):
+        h.rand_op()
+    if rng.random() < 0.5:
+        for u in sorted(h.stalled):
+            h.unstall(u)
+        h.bc()
+    h.case.append("st")
+    return h.case
 
 
 def gen_malformed(rng):
-    good = gen_case(rng, rng.choice([4, 8]))
+    good = gen_case(rng, rng.choice([4, 8]), rng.random() < 0.5)
     bad = ["", "nop", "reg", "reg 7531", "reg 7531 6631 6631", "unreg 7531", "add", "del", "del 61 62", "bc 6631", "bc 6631 78 79",
            "reg 753 6631", "reg 7G31 6631", "add 73747265616D2f61 6631", "reg ff 6631", "bc c0af 78", "reg 7531 - ", "add - -", "bc - -",
-           "reg - -", "REG 7531 6631", "del -"]
+           "reg - -", "REG 7531 6631", "del -", "stall 7531 6631", "stall 7531 6631 0a", "stall 7531 6631 100", "stall 7531 6631 -1",
+           "stall 7531 6631 1 1", "stall 753 6631 1", "stall 7531 6631 -", "unstall 7531", "unstall 7531 6631 6631", "unstall ff 6631",
+           "stall 7531 6631 07", "stall - - 0", "unstall - -"]
     out = []
     for l in good:
         if rng.random() < 0.4:
@@ -156,7 +305,8 @@ class AggMode(vlib.Mode):
 
     def generate(self, rng, tier):
         n = self.N[0] if tier == "quick" else self.N[1]
-        cases = [gen_case(rng, rng.choice([3, 6, 10, 16, 24, 34])) for _ in range(n)]
+        cases = [gen_case(rng, rng.choice([3, 6, 10, 16, 24, 34]), stalls=(i % 2 == 1)) for i in range(n)]
+        cases += [gen_stall_scenario(rng) for _ in range(n // 4)]
         cases += [gen_malformed(rng) for _ in range(n // 12)]
         return cases
 
@@ -170,9 +320,13 @@ class AggMode(vlib.Mode):
         """The property evaluated on what the real hub delivered, from the history alone (no table):
         per broadcast, a registered stream subscriber gets count(feed in latest rule of its stream) copies, a registered plain
         subscriber of that topic one copy, both unless the sender has their name; nobody else gets anything; nothing is
-        delivered by any other op; the hub never panics or hangs."""
+        delivered by any other op; the hub never panics or hangs.
+        Stalled subscribers: nothing is observed for them until they drain again; what they get then are only messages that
+        were owed to them when they were broadcast (never more copies than owed; at least as many as their buffer had room
+        for). Everybody who drains — next to a stalled one, after it, or a stalled one after draining again — is served exactly."""
         fails = []
         rules, regd, seq = {}, set(), 0
+        stalled = {}    # (name, topic) -> {"room": free slots at stall time, "owed": {tag: copies owed at broadcast time}}
         for l, o in zip(case, out):
             f = l.split(" ")
             if o.startswith("panic") or o.startswith("<<") or o == "dead":
@@ -198,7 +352,7 @@ class AggMode(vlib.Mode):
                     break
                 continue
             try:
-                args = [unhx(x).decode("utf-8") for x in f[1:]]
+                args = [unhx(x).decode("utf-8") for x in (f[1:3] if f[0] == "stall" else f[1:])]
             except Exception:
                 fails.append(("bad-output", f"{l} -> {o}")); break
             d = parse_deliveries(o)
@@ -219,6 +373,26 @@ class AggMode(vlib.Mode):
                     rules = {}
                 else:
                     rules.pop(args[0], None)
+            elif f[0] == "stall":
+                stalled.setdefault((args[0], args[1]), {"room": int(f[3]), "owed": {}})
+            elif f[0] == "unstall":
+                u = (args[0], args[1])
+                st = stalled.pop(u, None)
+                if st is not None:
+                    got = d.pop((hx(u[0]), hx(u[1])), {})
+                    for tg, n in got.items():
+                        owed = st["owed"].get(tg, 0)
+                        if owed == 0:
+                            sig = "plain-subscriber-wrong" if not is_stream(u[1]) else "received-feed-not-in-latest-rule"
+                            fails.append((sig, f"{u[0]}@{u[1]} drained a message tagged {tg} that was not owed to it when it was broadcast"))
+                        elif n > owed:
+                            fails.append(("wrong-multiplicity", f"{u[0]}@{u[1]} drained {tg} x{n}, at most x{owed} were owed"))
+                    need = min(st["room"], sum(st["owed"].values()))
+                    if sum(got.values()) < need:
+                        fails.append(("buffered-message-lost", f"{u[0]}@{u[1]} had room for {st['room']} message(s), was owed "
+                                      f"{sum(st['owed'].values())}, drained only {sum(got.values())}"))
+                    if fails:
+                        break
             if f[0] != "bc":
                 if d:
                     fails.append(("delivery-without-broadcast", f"{self.describe([l])[0]} delivered {o}")); break
@@ -234,7 +408,9 @@ class AggMode(vlib.Mode):
                     n = rules[u[1]].count(topic) if u[1] in rules else 0
                 else:
                     n = 1 if u[1] == topic else 0
-                if n:
+                if n and u in stalled:
+                    stalled[u]["owed"][tag] = n       # nothing may be seen now; at most this much when it drains
+                elif n:
                     exp[(hx(u[0]), hx(u[1]))] = n
             for who, tags in d.items():
                 nm, tp = unhx(who[0]).decode("utf-8", "replace"), unhx(who[1]).decode("utf-8", "replace")
@@ -242,7 +418,8 @@ class AggMode(vlib.Mode):
                     if tg != tag:
                         fails.append(("stale-message", f"{nm}@{tp} got a message tagged {tg} during broadcast {tag}"))
                     elif who not in exp:
-                        why = ("is not registered" if (nm, tp) not in regd else
+                        why = ("does not drain its channel (stalled)" if (nm, tp) in stalled else
+                               "is not registered" if (nm, tp) not in regd else
                                "has the sender's name" if nm == sender else
                                f"latest rule of {tp} is {rules.get(tp)}" if is_stream(tp) else "subscribes to another topic")
                         sig = "plain-subscriber-wrong" if not is_stream(tp) else "received-feed-not-in-latest-rule"
@@ -263,6 +440,9 @@ class AggMode(vlib.Mode):
         for l in case:
             f = l.split(" ")
             try:
+                if f[0] == "stall" and len(f) == 4:
+                    outl.append(" ".join([f[0]] + [repr(unhx(x).decode("utf-8", "replace")) for x in f[1:3]] + [f"free-slots={f[3]}"]))
+                    continue
                 outl.append(" ".join([f[0]] + [repr(unhx(x).decode("utf-8", "replace")) for x in f[1:]]))
             except Exception:
                 outl.append(l)
@@ -287,7 +467,8 @@ class AggDieMode(AggMode):
 
     def generate(self, rng, tier):
         n = 40 if tier == "quick" else 1500
-        return [gen_case(rng, rng.choice([6, 12, 24])) for _ in range(n)]
+        return [gen_case(rng, rng.choice([6, 12, 24]), stalls=(i % 2 == 1)) for i in range(n)] + \
+               [gen_stall_scenario(rng) for _ in range(n // 4)]
 
 
 def modes(tier):
